@@ -39,6 +39,24 @@ LITE_OPS = [["channel", 0], ["channel", 125], ["channel", 126], ["channel", -1],
 
 
 def gen_cases(ctx):
+    """round-robin over the sub-workloads so that a shard stopped by its wall budget has still
+    covered all of them"""
+    gens = [iter(g) for g in _subgens(ctx)]
+    while gens:
+        for g in list(gens):
+            for _ in range(8):
+                try:
+                    yield next(g)
+                except StopIteration:
+                    gens.remove(g)
+                    break
+
+
+def _subgens(ctx):
+    return [_g_link(ctx), _g_send(ctx), _g_fifo(ctx), _g_cfg(ctx), _g_load_ack(ctx), _g_switch(ctx)]
+
+
+def _g_link(ctx):
     rng = ctx.sub_rng("c20")
     # link integrity
     k = 0
@@ -49,7 +67,9 @@ def gen_cases(ctx):
         tk, rk = KINDS[k % 3]
         case = dict(case, tx_kind=tk, rx_kind=rk, crc=2, auto_ack=True, sub="link")
         yield case
-    # send/resend truth with the lite driver as PTX
+
+
+def _g_send(ctx):
     j = 0
     for case in c02.gen_cases(ctx, kind="lite"):
         j += 1
@@ -58,13 +78,19 @@ def gen_cases(ctx):
         if case["mode"] == "aa0_off":
             case["mode"] = "aa"
         yield dict(case, sub="send")
-    # accessors
+
+
+def _g_fifo(ctx):
+    j = 0
     for case in c10.gen_cases(ctx, kind="lite"):
         j += 1
         if ctx.tier == "quick" and j % 3:
             continue
         yield dict(case, sub="fifo")
-    # configuration round trip
+
+
+def _g_cfg(ctx):
+    rng = ctx.sub_rng("c20cfg")
     n = len(LITE_OPS)
     for a in range(n):
         for b in range(n):
@@ -72,12 +98,17 @@ def gen_cases(ctx):
     for w in range(150 if ctx.tier == "quick" else 10000):
         yield {"sub": "cfg", "ops": [LITE_OPS[rng.randrange(n)] for _ in range(30)],
                "poll": bool(w & 1)}
-    # load_ack
+
+
+def _g_load_ack(ctx):
     for fill in range(4):
         for pipe in range(-1, 7):
             for ln in list(range(0, 35)) + [40]:
                 yield {"sub": "load_ack", "fill": fill, "pipe": pipe, "len": ln}
-    # pipe-0 switching: explicit paths (BFS is done in run_shard-less form: random walks)
+
+
+def _g_switch(ctx):
+    rng = ctx.sub_rng("c20sw")
     ops = c08.LITE_OPS
     for w in range(400 if ctx.tier == "quick" else 30000):
         L = rng.randrange(1, 9)
